@@ -455,6 +455,14 @@ func c02Stress(seed int64, tier string) *c02Result {
 	if !col.failed() {
 		c02ColdStart(seed, tier, col)
 	}
+	if !col.failed() {
+		n := 10
+		if tier == "thorough" {
+			n = 200
+		}
+		c02PausedRender(col, n)
+		c02SharedData(col, n, 12)
+	}
 	for k := range col.seq {
 		res.Distinct = append(res.Distinct, k)
 	}
